@@ -27,7 +27,47 @@ let flush_section name =
 let sgnc v = let i = int_of_z v in if i < 0 then '-' else if i > 0 then '+' else '0'
 let bc b = if b then '1' else '0'
 
-let () =
+(* ---- random-stream mode (argv[1] = "rand"): see harness/c16_geom.cpp rand_mode for the line format *)
+let rec float_of_pos = function XH -> 1.0 | XO p -> 2.0 *. float_of_pos p | XI p -> 2.0 *. float_of_pos p +. 1.0
+let float_of_z = function Z0 -> 0.0 | Zpos p -> float_of_pos p | Zneg p -> -. (float_of_pos p)
+let float_of_bigq q = float_of_z q.qnum /. float_of_pos q.qden
+let read_tuples f =
+  (try while true do
+    let line = input_line stdin in
+    match List.map int_of_string (List.filter (fun s -> s <> "") (String.split_on_char ' ' (String.trim line))) with
+    | [ax; ay; bx; by_; cx; cy; dx; dy; qx; qy] ->
+        f (pt_of ax ay) (pt_of bx by_) (pt_of cx cy) (pt_of dx dy) (pt_of qx qy)
+    | _ -> ()
+  done with End_of_file -> ())
+
+(* positions without a spec decider print '?' (numeric fields '?') and are skipped by the comparison *)
+let rand_mode () =
+  let m77 = q_of_int (-77) in
+  read_tuples (fun a b c d q ->
+    let o = Buffer.create 32 in
+    let add ch = Buffer.add_char o ch in
+    add (sgnc (spec_vecDir a b c));
+    add (bc (spec_pointOnLine a b c));
+    add (bc (spec_colinear a b c));
+    add (if int_of_z (spec_vecDir a b c) = 0 then bc (spec_inBetween a b c) else '.');
+    add (bc (spec_segmentIntersect a b c d));
+    List.iter (fun seen -> let (r, s) = spec_segmentShapeIntersect a b c d seen in
+      add (Char.chr (48 + (if r then 2 else 0) + (if s then 1 else 0)))) [false; true];
+    List.iter (fun ig -> add (bc (spec_inValidRegion ig a b c d))) [false; true];
+    add (sgnc (spec_cornerSide a b c d));
+    let ((sc, sx), sy) = spec_segmentIntersectPoint a b c d m77 m77 in
+    let ((rc, rx), ry) = spec_rayIntersectPoint a b c d m77 m77 in
+    add (Char.chr (48 + int_of_z sc));
+    add (Char.chr (48 + int_of_z rc));
+    let poly = [a; b; c; d] in
+    List.iter (fun cb -> List.iter (fun p -> add (bc (spec_inPoly poly p cb))) [a; q; d]) [false; true];
+    List.iter (fun p -> add (bc (spec_inPolyGen poly p))) [a; q; d];
+    print_string (Buffer.contents o);
+    if int_of_z sc = 1 then Printf.printf " %.17g %.17g" (float_of_bigq sx) (float_of_bigq sy) else print_string " - -";
+    if int_of_z rc = 1 then Printf.printf " %.17g %.17g" (float_of_bigq rx) (float_of_bigq ry) else print_string " - -";
+    Printf.printf " %.17g\n" (float_of_bigq (spec_manhattanDist a b)))
+
+let grid_mode () =
   let g = int_of_string Sys.argv.(1) and gp = int_of_string Sys.argv.(2) in
   let pts = Array.init (g * g) (fun i -> pt_of (i / g) (i mod g)) in
   let n = Array.length pts in
@@ -51,4 +91,74 @@ let () =
       let poly = [pp.(a); pp.(b); pp.(c); pp.(d)] in
       for q = 0 to m-1 do add (bc (spec_inPoly poly pp.(q) true)) done
     done done done done;
-    flush_section "inPoly4"
+    flush_section "inPoly4";
+    (* ---- extension sections (appended; same enumeration order as harness/c16_geom.cpp) *)
+    let m77 = q_of_int (-77) in
+    it4 (fun a b c d -> let ((r, _), _) = spec_segmentIntersectPoint a b c d m77 m77 in add (Char.chr (48 + int_of_z r)));
+    flush_section "segmentIntersectPoint_code";
+    it4 (fun a b c d -> let ((r, _), _) = spec_rayIntersectPoint a b c d m77 m77 in add (Char.chr (48 + int_of_z r)));
+    flush_section "rayIntersectPoint_code";
+    print_string "## segmentIntersectPoint_xy 0\n";
+    for i = 0 to n-1 do for j = 0 to n-1 do for k = 0 to n-1 do for l = 0 to n-1 do
+      let ((r, x), y) = spec_segmentIntersectPoint pts.(i) pts.(j) pts.(k) pts.(l) m77 m77 in
+      if int_of_z r = 1 then Printf.printf "%d %d %d %d %.17g %.17g\n" i j k l (float_of_q x) (float_of_q y)
+    done done done done;
+    it3 (fun a b c -> add (bc (spec_colinear a b c))); flush_section "colinear";
+    it3 (fun a b c -> if int_of_z (spec_vecDir a b c) = 0 then add (bc (spec_inBetween a b c)) else add '.');
+    flush_section "inBetween";
+    List.iter (fun ig -> it4 (fun a b c d -> add (bc (spec_inValidRegion ig a b c d)))) [false; true];
+    flush_section "inValidRegion";
+    it4 (fun a b c d -> add (sgnc (spec_cornerSide a b c d))); flush_section "cornerSide";
+    List.iter (fun seen ->
+      it4 (fun a b c d -> let (r, s) = spec_segmentShapeIntersect a b c d seen in
+            add (Char.chr (48 + (if r then 2 else 0) + (if s then 1 else 0))))) [false; true];
+    flush_section "segmentShapeIntersect";
+    print_string "## manhattanDist 0\n";
+    for i = 0 to n-1 do for j = 0 to n-1 do
+      Printf.printf "%.17g\n" (float_of_bigq (spec_manhattanDist pts.(i) pts.(j))) done done;
+    print_string "## projection_xy 0\n";
+    for i = 0 to n-1 do for j = 0 to n-1 do for k = 0 to n-1 do
+      if i <> k then begin
+        let p = spec_projection pts.(i) pts.(j) pts.(k) in
+        Printf.printf "%d %d %d %.17g %.17g\n" i j k (float_of_bigq p.px) (float_of_bigq p.py) end
+    done done done;
+    (* inPolyGen against the division-free crossing-parity rule (every polygon) ... *)
+    for a = 0 to m-1 do for b = 0 to m-1 do for c = 0 to m-1 do
+      let poly = [pp.(a); pp.(b); pp.(c)] in
+      for q = 0 to m-1 do add (bc (spec_inPolyGen poly pp.(q))) done
+    done done done;
+    flush_section "inPolyGen3";
+    for a = 0 to m-1 do for b = 0 to m-1 do for c = 0 to m-1 do for d = 0 to m-1 do
+      let poly = [pp.(a); pp.(b); pp.(c); pp.(d)] in
+      for q = 0 to m-1 do add (bc (spec_inPolyGen poly pp.(q))) done
+    done done done done;
+    flush_section "inPolyGen4";
+    (* ... and against the closed region where that is proved to be its meaning: q a vertex, non-degenerate
+       triangles, axis-parallel rectangles in any vertex order; '?' elsewhere *)
+    for a = 0 to m-1 do for b = 0 to m-1 do for c = 0 to m-1 do
+      let pa = pp.(a) and pb = pp.(b) and pc = pp.(c) in
+      let nondeg = int_of_z (spec_vecDir pa pb pc) <> 0 in
+      for q = 0 to m-1 do
+        let pq = pp.(q) in
+        add (if nondeg then bc (spec_triangle_region pa pb pc pq)
+             else if pq = pa || pq = pb || pq = pc then '1' else '?') done
+    done done done;
+    flush_section "inPolyGen3_region";
+    for a = 0 to m-1 do for b = 0 to m-1 do for c = 0 to m-1 do for d = 0 to m-1 do
+      let poly = [pp.(a); pp.(b); pp.(c); pp.(d)] in
+      let xs = List.sort_uniq compare (List.map (fun p -> int_of_z p.px.qnum) poly)
+      and ys = List.sort_uniq compare (List.map (fun p -> int_of_z p.py.qnum) poly) in
+      let rect = match xs, ys with
+        | [x0; x1], [y0; y1] ->
+            let x0 = q_of_int x0 and x1 = q_of_int x1 and y0 = q_of_int y0 and y1 = q_of_int y1 in
+            if List.exists (fun o -> rect_poly o x0 x1 y0 y1 = poly) rect_orders then Some (x0, x1, y0, y1) else None
+        | _ -> None in
+      for q = 0 to m-1 do
+        let pq = pp.(q) in
+        add (match rect with
+             | Some (x0, x1, y0, y1) -> bc (rect_contains x0 x1 y0 y1 pq)
+             | None -> if List.mem pq poly then '1' else '?') done
+    done done done done;
+    flush_section "inPolyGen4_region"
+
+let () = if Array.length Sys.argv > 1 && Sys.argv.(1) = "rand" then rand_mode () else grid_mode ()
